@@ -947,3 +947,29 @@ mod test {
         }
     }
 }
+
+// ===== verification hooks (add-only, feature-gated) =====
+
+#[cfg(feature = "hyperium_h2_verif")]
+pub(crate) fn verif_decode_int(src: &[u8], prefix_size: u8) -> Result<(usize, usize), DecoderError> {
+    let mut buf = src;
+    let v = decode_int(&mut buf, prefix_size)?;
+    Ok((v, buf.len()))
+}
+
+#[cfg(feature = "hyperium_h2_verif")]
+impl Decoder {
+    /// (entries newest first as (name, value), size, max_size, last_max_update)
+    pub(crate) fn verif_table(&self) -> (Vec<(Vec<u8>, Vec<u8>)>, usize, usize, usize) {
+        (
+            self.table
+                .entries
+                .iter()
+                .map(|h| (h.name().as_slice().to_vec(), h.value_slice().to_vec()))
+                .collect(),
+            self.table.size,
+            self.table.max_size,
+            self.last_max_update,
+        )
+    }
+}
